@@ -46,6 +46,10 @@ def run_jsep(ctx, focus):
         ctx.cov["quick_sample_of_cover"] = {"paths_kept": len(kept), "paths_in_cover": len(paths)}
         paths = kept
     beh = vlib.behaviours_from_paths(paths)
+    if focus == "C03":
+        # whether a description is rejected before or after the transition must not depend on the configured semantics
+        for b in beh:
+            b["sem"] = ("unified", "planb", "fallback")[b["id"] % 3]
     ctx.log("%d behaviours (%d steps)" % (len(beh), sum(len(b["steps"]) for b in beh)))
     infile = vlib.write_json(os.path.join(ctx.work, "behaviours.json"), beh)
     trace = os.path.join(ctx.work, "trace.ndjson")
